@@ -109,7 +109,6 @@ rx("m15a", "C15", "zhttp/zhttp.go", r'case "HEAD":\n\t\treturn Config\.Parsers\.
 rx("m15b", "C15", "zhttp/zhttp.go", r'strings\.Cut\(r\.Header\.Get\("Content-Type"\), ";"\)', 'strings.Cut(r.Header.Get("Content-Type"), ",")', "dispatch-table")
 rx("m15c", "C15", "parsers/zjson/parseJson.go", r"Code: zconst\.IssueCodeInvalidJSON, Err: errors\.New", "Code: zconst.IssueCodeCoerce, Err: errors.New", "decode-failure")
 rx("m15d", "C15", "zhttp/zhttp.go", r"v, ok := u\.Data\[key\]\n\t\tif !ok \{(?s:.*?)\n\t\t\}\n\t\treturn v", "return u.Data[key]", "list-scalar-absent")
-rx("m15z", "C15", "parsers/zjson/parseJson.go", r"defer closer\.Close\(\)", "closer.Close()", "source-open-while-read", "the request body is closed before it is decoded")
 # ---- C16
 rx("m16a", "C16", "struct_helpers.go", r"slices\.Clip\(v\.tests\)", "v.tests[:len(v.tests)]", "no-shared-backing")
 rx("m16b", "C16", "struct_helpers.go", r"(func \(v \*StructSchema\) Omit(?s:.*?))\tnew\.schema = Schema\{\}\n\tmaps\.Copy\(new\.schema, v\.schema\)\n", "${1}", "operands-read-only")
@@ -133,6 +132,7 @@ rx("m18z", "C18", "conf/Coercers.go", r"(failed to coerce string int: %v\", err\
 rx("m19a", "C19", "slices.go", r"\t\t\tdef := reflect\.ValueOf\(v\.defaultVal\)\n(?s:.*?)refVal\.Set\(cp\)", "\t\t\trefVal.Set(reflect.ValueOf(v.defaultVal))", "default-not-aliased")
 rx("m19b", "C19", "zogSchema.go", r"\t\t\t\*destPtr = \*defaultVal\n", "\t\t\tdestPtr = defaultVal\n", "no-schema-or-input-writes")
 rx("m19c", "C19", "boolean.go", r"(func \(v \*BoolSchema\[T\]\) validate\(ctx \*p\.SchemaCtx\) \{\n)", "${1}\t*(ctx.ValPtr.(*T)) = T(false)\n", "validate-write-sites")
+rx("m19d", "C19", "slices.go", r"def := p\.DeepCopyValue\(reflect\.ValueOf\(v\.defaultVal\)\)", "def := reflect.ValueOf(v.defaultVal)", "default-not-aliased", "F27 reverted: the default copied one level deep")
 # ---- C20
 rx("m20a", "C20", "internals/tests.go", r"return len\(\*x\) >= n", "return len(*x) > n", "predicate")
 rx("m20b", "C20", "time.go", r"return val\.Equal\(t\)", "return *val == t", "predicate")
@@ -141,6 +141,10 @@ rx("m20d", "C20", "string.go", r"strings\.HasSuffix\(string\(\*val\), string\(s\
 rx("m20e", "C20", "slices.go", r"return rv\.Len\(\) <= n", "return rv.Len() < n", "predicate")
 rx("m20f", "C20", "string.go", r"\{0,61\}\[a-zA-Z0-9\]\)\?\(\?:", "{0,62}[a-zA-Z0-9])?(?:", "regexp-language", "e-mail label length bound off by one")
 rx("m20g", "C20", "string.go", r"\[0-9a-fA-F\]\{12\}\$`", "[0-9a-fA-F]{12}`", "regexp-language", "UUID pattern loses its end anchor")
+rx("m15z", "C15", "parsers/zjson/parseJson.go", r"var m map\[string\]any\n", "var m any\n", "decode-failure", "decode into any: every JSON document is accepted")
+rx("m14z", "C14", "zenv/zenv.go", r"return strings\.TrimSpace\(os\.Getenv\(key\)\)", "return strings.ToLower(strings.TrimSpace(os.Getenv(key)))", "env-leaf-is-trimmed-value")
+rx("m11z", "C11", "internals/contexts.go", r"(func \(c \*ExecCtx\) Get\(key string\) any \{\n)", "${1}\tif key == \"\" {\n\t\treturn c.Fmter\n\t}\n", "ctx-value-last-set-wins")
+
 
 # ---- seeded changes (patches)
 for meta in sorted(glob.glob("/verif/seeded/*/meta.json")):
